@@ -17,8 +17,8 @@ META = {
     'text': 'All 21 scalar types with their boundary values (integer edges around every byte length, varints to 9/20 '
             'bytes, decimals over unscaled x scale edges, NaN/inf/-0.0, empty and non-BMP text, ms-precision timestamps '
             'over years 1..9999, date/time extremes, durations with each component at its int32/int64 and vint-size '
-            'edges), every container shape (list, set, map, tuple, UDT, vector, frozen, reversed) over every scalar, and '
-            'a further nesting level (two in the thorough tier) over int/text based trees, with the shapes empty / '
+            'edges), every container shape (list, set, map, tuple, UDT, vector, frozen<list>) over every scalar, and '
+            'a further nesting level over int/text based trees (thorough: over all scalars, plus a fourth level over int/text/double/blob), with the shapes empty / '
             'singleton / two elements / both orders / null at each position / one collection of all boundary values, '
             'are encoded and decoded by the driver at protocol versions 1,2,3,4,5,6,65,66; the decoded python object '
             'is converted back and compared with the original value.',
@@ -60,9 +60,14 @@ def check_case(part, t, T, vi, v, dv, pv, form, thorough):
     try:
         r = T.from_binary(b, pv)
     except Exception as e:
-        part.violation('C01/decode-raises/%s/%s' % (_leafkinds(t), type(e).__name__),
-                       'from_binary(%s, pv=%d) of %s raised %r; the bytes are the driver\'s own encoding of %s' % (
-                           b[:64].hex(), pv, tstr(t), e, B.short(dv)), case)
+        try:
+            lt, lv, where = B.localise(t, v, pv, _roundtrip_raises)
+        except Exception:
+            lt, lv, where = t, v, ()
+        part.violation('C01/decode-raises/%s/%s' % (lt[0], type(e).__name__),
+                       'from_binary(%s, pv=%d) of %s raised %r; the bytes are the driver\'s own encoding of %s '
+                       '(smallest failing part: %s %s inside %s)' % (
+                           b[:64].hex(), pv, tstr(t), e, B.short(dv), lt[0], B.short(lv, 120), '/'.join(where) or 'top level'), case)
         part.outcome((t[0], 'decode-raises'))
         return
     got = B.from_driver(t, r)
@@ -91,9 +96,17 @@ def _raises(st, sv, spv):
         return True
 
 
-def _leafkinds(t):
-    ks = sorted(set(x[0] for x in V.walk(t) if x[0] in V.SCALARS))
-    return t[0] if len(ks) > 2 else '+'.join([t[0]] + ks) if t[0] not in V.SCALARS else t[0]
+def _roundtrip_raises(st, sv, spv):
+    T = B.driver_type(st)
+    try:
+        b = T.to_binary(B.to_driver(st, sv), spv)
+    except Exception:
+        return False
+    try:
+        T.from_binary(b, spv)
+        return False
+    except Exception:
+        return True
 
 
 def _has_null(t, v):
@@ -146,19 +159,20 @@ def type_space(ctx_quick):
         levels = G.value_type_trees(3, base_deeper=(('int',), ('text',)), thorough=False)
     else:
         lv = G.value_type_trees(3, base_deeper=G.SCALAR_TYPES, thorough=True)
-        lv4 = G.value_type_trees(4, base_deeper=(('int',), ('text',)), thorough=True)
+        lv4 = G.value_type_trees(4, base_deeper=(('int',), ('text',), ('double',), ('blob',)), thorough=True)
         levels = lv + [lv4[3]]
     # reversed<> is not a CQL data type (the server unwraps it before it describes a column); its codec is compared in C28
     return [[t for t in lvl if t[0] != 'reversed'] for lvl in levels]
 
 
 def run(ctx):
+    V.selftest()
     thorough = not ctx.quick
     import cassandra.cqltypes       # imported before the fork so that the workers share it
     levels = type_space(ctx.quick)
     types = [t for lvl in levels for t in lvl]
     types = ctx.rotate(types)
-    n = ctx.nproc * 4
+    n = 4 if ctx.quick else ctx.nproc * 4      # the quick grid takes ~2 s on one core: a few workers beat 16 forks
     chunks = [(thorough, types[i::n], None) for i in range(n)]
     for part in ctx.pmap(run_chunk, [c for c in chunks if c[1]]):
         ctx.merge(part)
